@@ -27,20 +27,19 @@ THEOREMS = [
     "BeyondVerif.C09.too_short_value_error",
     "BeyondVerif.C09.result_keeps_frame_form",
     "BeyondVerif.C09.result_keeps_frame_form_after_convert",
-    "BeyondVerif.C09.interpolate_uses_current_coordinates_partial",
-    "BeyondVerif.C09W.stale_cache_ignores_conversion",
-    "BeyondVerif.C09W.stale_cache_wrong_coordinates",
+    "BeyondVerif.C09.fresh_reachable",
+    "BeyondVerif.C09.interpolate_uses_current_coordinates",
+    "BeyondVerif.C09W.stale_scenario_now_consistent",
 ]
 LEVEL_TEXT = ("Lean theorems over R about a model of Interp (_prev_idx slicing search, the start/stop window arithmetic translated from interp.py on every run, "
               "Python slicing, the Lagrange and linear formulas) and of Ephem.interpolate: for every strictly increasing table, every order >= 2 (even and odd), "
               "every length >= order and every abscissa of [first, last] the call returns the Lagrange interpolant on `order` consecutive rows containing the "
               "bracketing interval (both end intervals included); that value is Mathlib's Lagrange.interpolate, hence exact at nodes and exact on polynomials of "
               "degree < order; linear interpolation is exact at nodes and on piecewise-linear data; abscissae outside and tables shorter than the order give an "
-              "error, never a value; the result carries the form/frame of the ephemeris and the requested date. Model tied to the real classes by an exact / "
+              "error, never a value; the result carries the form/frame of the ephemeris and the requested date, and after any history of interpolations and "
+              "frame/form changes its coordinates are interpolated from the current points. Model tied to the real classes by an exact / "
               "1e-10 differential correspondence (prev_idx, window recovered from one-hot ordinates, whole calls, Ephem sequences).")
-LEVEL_NOTE = ("R -> double gap covered only by the correspondence; 'within centimetres on a smooth orbit' is checked by the oracle only; the clause 'coordinates "
-              "agree with the labelled frame/form' is false of the code after a frame/form change of an already interpolated ephemeris (open finding, "
-              "kernel-checked witness); Lean kernel + propext/Classical.choice/Quot.sound; py2lean translator and harness trusted")
+LEVEL_NOTE = ("R -> double gap covered only by the correspondence; 'within centimetres on a smooth orbit' is checked by the oracle only; Lean kernel + propext/Classical.choice/Quot.sound; py2lean translator and harness trusted")
 TECHNIQUE = ("Lean 4 proof (induction over the binary search, omega on the window arithmetic regenerated from the Python AST, Mathlib Lagrange.interpolate / "
              "eq_interpolate) + exact differential correspondence of the executable model with Interp / Ephem")
 TRUSTED = [
@@ -57,8 +56,6 @@ ASSUMPTIONS = [
 NOT_COVERED = [
     "'for a smooth orbit sampled at a step well below its period the interpolated position is within centimetres': an approximation bound for a class of functions; oracle only "
     "(Keplerian orbits e <= 0.05, step = period/100..200, orders 7..10, uniform and jittered: <= 5 cm at every position incl. first/last interval)",
-    "coordinates consistent with the labelled frame/form after `ephem.frame = ...` / `ephem.form = ...` on an ephemeris interpolated before: false of the current code "
-    "(known findings C09-stale-interpolator-after-{frame,form}-set; Witness/C09.lean)",
 ]
 OPEN = [
     "the Lagrange formula itself (tile/repeat/mask/prod/@ in numpy) is hand-modelled in the template and tied by correspondence only, not translated from the AST",
